@@ -175,15 +175,15 @@ func diagsCanon(p *protocol.PublishDiagnosticsParams) string {
 
 func init() {
 	Register(&Prop{
-		ID:   "C13",
-		Race: true,
-		Rule: "bursts of 2-5 versions (didOpen + didChange) of one document, each out of balance by a distinct amount so that a payload identifies its version; the stub client parks every PublishDiagnostics call and the controller realises a schedule = linear extension of {change_i < change_i+1, change_i < deliver_i}, waiting for goroutine-state quiescence between steps. All 3/15/105 schedules for 2/3/4 versions are enumerated (945 for 5 in the thorough tier, sampled in quick), with and without workspace root; two-document bursts interleave two schedules (sampled). Oracle: at final quiescence the last delivered diagnostics per document equal those a fresh server publishes for the final text. Three-event schedules additionally hold every analysis at the diag.loaded hook (before the publishing point): all 10/280 for 2/3 versions, 4 versions sampled (quick) or all 15400 (thorough). Non-trivial = a schedule that asks for a delivery order different from the change order, or any three-event schedule (whether the implementation lets it happen is counted separately: out_of_order_deliveries_realised, infeasible_release_steps); distinct by schedule string.",
-		Notes: []string{"gates exist only at the client boundary (PublishDiagnostics); a release step whose call never arrives (suppressed by the implementation) is recorded as infeasible, not as an error", "runs under the race detector (by-catch)"},
-		Cases: func(tier string) int64 { return int64(len(c13Plans(tier))) },
-		Exhaustive: func(tier string) bool { return true },
-		Shards: func(tier string) int { return 16 },
+		ID:          "C13",
+		Race:        true,
+		Rule:        "bursts of 2-5 versions (didOpen + didChange) of one document, each out of balance by a distinct amount so that a payload identifies its version; the stub client parks every PublishDiagnostics call and the controller realises a schedule = linear extension of {change_i < change_i+1, change_i < deliver_i}, waiting for goroutine-state quiescence between steps. All 3/15/105 schedules for 2/3/4 versions are enumerated (945 for 5 in the thorough tier, sampled in quick), with and without workspace root; two-document bursts interleave two schedules (sampled). Oracle: at final quiescence the last delivered diagnostics per document equal those a fresh server publishes for the final text. Three-event schedules additionally hold every analysis at the diag.loaded hook (before the publishing point): all 10/280 for 2/3 versions, 4 versions sampled (quick) or all 15400 (thorough). Non-trivial = a schedule that asks for a delivery order different from the change order, or any three-event schedule (whether the implementation lets it happen is counted separately: out_of_order_deliveries_realised, infeasible_release_steps); distinct by schedule string.",
+		Notes:       []string{"gates exist only at the client boundary (PublishDiagnostics); a release step whose call never arrives (suppressed by the implementation) is recorded as infeasible, not as an error", "runs under the race detector (by-catch)"},
+		Cases:       func(tier string) int64 { return int64(len(c13Plans(tier))) },
+		Exhaustive:  func(tier string) bool { return true },
+		Shards:      func(tier string) int { return 16 },
 		MustObserve: []string{"schedules_run", "deliveries", "reordering_schedules_attempted"},
-		RunCase:    runC13,
+		RunCase:     runC13,
 	})
 }
 
